@@ -108,13 +108,13 @@ def run(tier):
         canary = tid
         rej, st = tlc.validate_trace(os.path.join(SPEC, "Trace_CRC16.tla"), "INIT Init\nNEXT Next\n", evs, wd, shards=16)
         rej_ids = {x[1] for x in rej}
-        if canary not in rej_ids:
-            raise MachineryError("binding self-test: corrupted CRC event was accepted by the trace spec")
         byid = {e["tid"]: e for e in evs}
         for x in rej:
             if x[1] != canary:
                 e = byid[x[1]]
                 rep.violation("C15:" + x[2], "crc8404B result %r rejected by the specification (%s)" % (e["out"], x[2]), e)
+        if canary not in rej_ids and not rep.violations:
+            raise MachineryError("binding self-test: corrupted CRC event was accepted by the trace spec")
         rep.add_trace("Trace_CRC16 (recorded crc8404B calls judged by the bit-serial definition)", st, len(evs) - 1)
         # --- use site: the checksum INSIDE authentication blocks (the container of C08) is this CRC, big-endian, two bytes,
         #     and a frame with any other value in the checksum field (0000 and FFFF included) is refused
